@@ -41,6 +41,168 @@ PURE_CALLS = {"len", "bool"}
 # N4
 
 
+def inline_module_constants(tree: ast.Module) -> bool:
+    """A module-level name bound exactly once (at top level) to a literal (number, str/bytes, None/bool, or a
+    tuple / set / frozenset literal of such) and never re-bound anywhere is replaced by the literal in every
+    function body that does not shadow it (a literal hoisted to a named constant)."""
+    def literal(v) -> bool:
+        if isinstance(v, ast.Constant):
+            return True
+        if isinstance(v, ast.UnaryOp) and isinstance(v.op, ast.USub) and isinstance(v.operand, ast.Constant):
+            return True
+        if isinstance(v, (ast.Tuple, ast.Set)):
+            return all(literal(x) for x in v.elts)
+        if isinstance(v, ast.BinOp) and isinstance(v.op, (ast.Mult, ast.Add, ast.BitOr, ast.LShift)):
+            return literal(v.left) and literal(v.right)
+        return False
+
+    top: Dict[str, ast.AST] = {}
+    for st in tree.body:
+        if isinstance(st, ast.Assign) and len(st.targets) == 1 and isinstance(st.targets[0], ast.Name) and literal(st.value):
+            top[st.targets[0].id] = st.value
+        elif isinstance(st, ast.AnnAssign) and isinstance(st.target, ast.Name) and st.value is not None and literal(st.value):
+            top[st.target.id] = st.value
+    if not top:
+        return False
+    stores: Dict[str, int] = {}
+    for x in ast.walk(tree):
+        if isinstance(x, ast.Name) and isinstance(x.ctx, (ast.Store, ast.Del)):
+            stores[x.id] = stores.get(x.id, 0) + 1
+        elif isinstance(x, (ast.Global, ast.Nonlocal)):
+            for n_ in x.names:
+                stores[n_] = stores.get(n_, 0) + 5
+        elif isinstance(x, (ast.FunctionDef, ast.AsyncFunctionDef, ast.ClassDef)):
+            stores[x.name] = stores.get(x.name, 0) + 5
+        elif isinstance(x, ast.arg):
+            stores[x.arg] = stores.get(x.arg, 0) + 5  # a parameter of that name somewhere: be conservative
+        elif isinstance(x, ast.alias):
+            nm = (x.asname or x.name).split(".")[0]
+            stores[nm] = stores.get(nm, 0) + 5
+    consts = {k: v for k, v in top.items() if stores.get(k, 0) == 1}
+    if not consts:
+        return False
+    changed = [False]
+
+    class T(ast.NodeTransformer):
+        def visit_Name(self, node):
+            if isinstance(node.ctx, ast.Load) and node.id in consts:
+                changed[0] = True
+                return ast.copy_location(copy.deepcopy(consts[node.id]), node)
+            return node
+
+    for st in tree.body:
+        if isinstance(st, FuncNode + (ast.ClassDef,)):
+            for i, sub in enumerate(st.body):
+                st.body[i] = T().visit(sub)
+    return changed[0]
+
+
+def nested_defs_to_lambdas(tree: ast.Module) -> bool:
+    """A nested ``def f(a): return E`` (no decorators, no defaults, not async/generator) whose name is only ever
+    used as a bare argument / callee inside the enclosing function becomes ``lambda a: E`` at its uses."""
+    changed = False
+    for outer in [x for x in ast.walk(tree) if isinstance(x, FuncNode)]:
+        for blk in [x for x in ast.walk(outer) if hasattr(x, "body") and isinstance(getattr(x, "body"), list)]:
+            if isinstance(blk, FuncNode) and blk is not outer:
+                continue
+            for st in list(blk.body):
+                if not isinstance(st, ast.FunctionDef) or st.decorator_list:
+                    continue
+                body = [x for x in st.body if not (isinstance(x, ast.Expr) and isinstance(x.value, ast.Constant))]
+                a = st.args
+                if len(body) != 1 or not isinstance(body[0], ast.Return) or body[0].value is None or a.defaults or a.kw_defaults or a.vararg or a.kwarg or a.kwonlyargs:
+                    continue
+                if any(isinstance(y, (ast.Yield, ast.YieldFrom, ast.Await)) for y in ast.walk(body[0])):
+                    continue
+                refs = [y for y in ast.walk(outer) if isinstance(y, ast.Name) and y.id == st.name]
+                if not refs or any(not isinstance(y.ctx, ast.Load) for y in refs):
+                    continue
+                lam_args = ast.arguments(posonlyargs=[], args=[ast.arg(arg=x.arg) for x in a.posonlyargs + a.args], vararg=None, kwonlyargs=[], kw_defaults=[], kwarg=None, defaults=[])
+                lam = ast.Lambda(args=lam_args, body=body[0].value)
+
+                class T(ast.NodeTransformer):
+                    def visit_Name(self, node, name=st.name, lam=lam):
+                        if node.id == name and isinstance(node.ctx, ast.Load):
+                            return ast.copy_location(copy.deepcopy(lam), node)
+                        return node
+
+                    def visit_FunctionDef(self, node, target=st):
+                        if node is target:
+                            return None
+                        return self.generic_visit(node)
+
+                new_body = []
+                for x in outer.body:
+                    r = T().visit(x)
+                    if r is not None:
+                        new_body.append(r)
+                outer.body = new_body or [ast.Pass()]
+                changed = True
+    return changed
+
+
+EXTERNAL_SIGNATURES = {"add_timeout": ["deadline", "callback"], "call_later": ["delay", "callback"], "call_at": ["when", "callback"]}
+
+
+def keywords_to_positional(tree: ast.Module) -> bool:
+    """``self.m(b=2, a=1)`` / ``f(a=1)`` -> positional arguments in the order of the definition found in the same
+    class (or its bases in the module) / module; a few well-known external signatures (IOLoop timers) as well."""
+    funcs = _functions(tree)
+    bases = _class_bases(tree)
+    changed = [False]
+
+    def params_of(call: ast.Call, cls: Optional[str]):
+        f = call.func
+        h = None
+        if isinstance(f, ast.Attribute) and isinstance(f.value, ast.Name) and f.value.id == "self" and cls:
+            seen, todo = set(), [cls]
+            while todo and h is None:
+                c = todo.pop(0)
+                if c in seen:
+                    continue
+                seen.add(c)
+                h = funcs.get((c, f.attr))
+                todo.extend(b for b in bases.get(c, []) if b in bases)
+            if h is None:
+                return None
+            ps = [a.arg for a in h.args.posonlyargs + h.args.args]
+            if any(q.dotted(d) == "staticmethod" for d in h.decorator_list):
+                return ps if not (h.args.vararg or h.args.kwarg) else None
+            return ps[1:] if ps and not (h.args.vararg or h.args.kwarg) else None
+        if isinstance(f, ast.Name) and (None, f.id) in funcs:
+            h = funcs[(None, f.id)]
+            return [a.arg for a in h.args.posonlyargs + h.args.args] if not (h.args.vararg or h.args.kwarg) else None
+        if isinstance(f, ast.Attribute) and f.attr in EXTERNAL_SIGNATURES:
+            return EXTERNAL_SIGNATURES[f.attr]
+        return None
+
+    def fix(call: ast.Call, cls):
+        if not call.keywords or any(k.arg is None for k in call.keywords) or any(isinstance(a, ast.Starred) for a in call.args):
+            return
+        ps = params_of(call, cls)
+        if ps is None:
+            return
+        kw = {k.arg: k.value for k in call.keywords}
+        args = list(call.args)
+        while len(args) < len(ps) and ps[len(args)] in kw:
+            args.append(kw.pop(ps[len(args)]))
+        if len(args) != len(call.args):
+            call.args = args
+            call.keywords = [k for k in call.keywords if k.arg in kw]
+            changed[0] = True
+
+    for st in tree.body:
+        if isinstance(st, FuncNode):
+            for x in ast.walk(st):
+                if isinstance(x, ast.Call):
+                    fix(x, None)
+        elif isinstance(st, ast.ClassDef):
+            for x in ast.walk(st):
+                if isinstance(x, ast.Call):
+                    fix(x, st.name)
+    return changed[0]
+
+
 class _MapToGen(ast.NodeTransformer):
     """``map(lambda x: E, it)`` -> ``(E for x in it)`` (same elements for every consumer that iterates once)."""
 
@@ -629,6 +791,10 @@ def _remove_stmt(root, target) -> bool:
 
 def normalize_tree(tree: ast.Module, keep: Iterable[str] = (), substitute_rounds: int = 12) -> ast.Module:
     tree = copy.deepcopy(tree)
+    inline_module_constants(tree)
+    nested_defs_to_lambdas(tree)
+    keywords_to_positional(tree)
+    ast.fix_missing_locations(tree)
     tree = _Untuple().visit(tree)
     tree = _MapToGen().visit(tree)
     ast.fix_missing_locations(tree)
